@@ -109,6 +109,31 @@ s = rep(SRC, "        'debug': False,\n\n    }", "        'debug': False,\n\n   
 s = rep(s, "'version': '4.7'", "'version': '4.8'")
 EDITS["h5_dict_entry_version"] = ("an unused key added to program_info, version string bumped", s)
 
+# ---- the table-loop shape of load_save (refactoring seeded/harmless/H0-3) and mutations of it
+CHECKS = SRC[SRC.index("        if not save_config.has_option('rule_info', 'rule_name'):"):SRC.index("        # Set the ruleset info")]
+TABLE = """        required_options = [
+            ('rule_info', 'rule_name', 'Missing rule_name'),
+            ('rule_info', 'uuid', 'Missing rule uuid'),
+            ('rule_info', 'skip_brute', 'Missing the skip_brute flag for session'),
+            ('rule_info', 'skip_case', 'Missing the skip_case flag for session'),
+            ('session_info', 'last_updated', 'Missing last_updated'),
+        ]
+        for section, option, error_message in required_options:
+            if not save_config.has_option(section, option):
+                raise configparser.Error(error_message)
+
+"""
+T = rep(SRC, CHECKS, TABLE)
+EDITS["h6_table_loop"] = ("the five has_option checks of load_save as a loop over a table of constant tuples (H0-3)", T)
+EDITS["m12_table_row_dropped"] = ("table-loop shape, the ('rule_info', 'uuid', ...) row dropped: a save file without uuid is resumed", rep(T, "            ('rule_info', 'uuid', 'Missing rule uuid'),\n", ""))
+EDITS["m13_table_has_option_swapped"] = ("table-loop shape, has_option(option, section)", rep(T, "save_config.has_option(section, option)", "save_config.has_option(option, section)"))
+# shapes the unroller must NOT accept (quick_probe must say REFUSED)
+EDITS["r1_table_indexed"] = ("table-loop shape, the table is also indexed", rep(T, "        for section, option, error_message in required_options:", "        first = required_options[0]\n        for section, option, error_message in required_options:"))
+EDITS["r2_table_mutated"] = ("table-loop shape, a row is appended before the loop", rep(T, "        for section, option, error_message in required_options:", "        required_options.append(('guessing_info', 'x', 'y'))\n        for section, option, error_message in required_options:"))
+EDITS["r3_table_not_constant"] = ("table-loop shape, one element is not a constant", rep(T, "('rule_info', 'uuid', 'Missing rule uuid')", "('rule_info', 'uu' + 'id', 'Missing rule uuid')"))
+EDITS["r4_loop_var_after_loop"] = ("table-loop shape, a loop variable is read after the loop", rep(T, "                raise configparser.Error(error_message)\n\n", "                raise configparser.Error(error_message)\n        print(option, file=sys.stderr)\n\n"))
+EDITS["r5_table_iterated_twice"] = ("table-loop shape, the table is iterated by two loops", rep(T, "        for section, option, error_message in required_options:", "        for s2, o2, e2 in required_options:\n            print(e2, file=sys.stderr)\n        for section, option, error_message in required_options:"))
+
 for name, (what, text) in EDITS.items():
     d = "".join(difflib.unified_diff(SRC.splitlines(True), text.splitlines(True), "a/pcfg_guesser.py", "b/pcfg_guesser.py"))
     assert d, name
